@@ -42,3 +42,60 @@ Proof.
     by (vm_compute; reflexivity).
   apply String.eqb_neq in E. apply E. exact H1.
 Qed.
+
+(* ------------------------------------------------------------------ statements that are NOT proved in general *)
+(* the narrow classes of the two reproduced defects, as triggers on the model state before a step *)
+Definition known_step (s : state) (o : op) : bool :=
+  match o, upper s with
+  | OMkdir p _, Some t => match tget t p with Some Wh => true | _ => false end
+  | OUnlink p, Some t | ORmdir p, Some t =>
+      match tget t p with
+      | Some Wh | None => false
+      | Some _ => match merge (lowers s) with
+                  | Some lv => match tget lv p with Some _ => true | None => false end
+                  | None => false
+                  end
+      end
+  | _, _ => false
+  end.
+Fixpoint known_run (ops : list (bool * op)) (s : state) : bool :=
+  match ops with
+  | [] => false
+  | (d, o) :: r => known_step s o || known_run r (let s1 := run_op o s in if d then load_all s1 else s1)
+  end.
+(* restart equivalence outside the known classes: stated, checked by differential runs, not proved *)
+Definition C11_partial_statement : Prop := forall u ls nx ops,
+  known_run ops (load_all (fresh u ls nx)) = false -> restart_same_view u ls nx ops.
+
+(* C10, per-operation refinement: every step changes the client's view as an ordinary file system
+   step would, and returns the same result.  The faithful model refutes the full statement
+   (copy-up drops extended attributes); stated here, proved only for the consequences in Props/C10.v *)
+Definition res_same (a b : res string) : Prop :=
+  match a, b with Ok x, Ok y => x = y | Err x, Err y => x = y | _, _ => False end.
+Definition op_refines (u : option tree) (ls : list tree) (nx : N) (ops : list (bool * op)) (o : op) : Prop :=
+  let s := run_dumps ops (load_all (fresh u ls nx)) in
+  match view (load_all s) with
+  | Some v =>
+      let spec := fs_apply o (mkFs v (next_ino s)) in
+      res_same (fst (step o (load_all s))) (fst spec) /\
+      ser_opt (view (load_all (run_op o (load_all s)))) = ser SER (f_tree (snd spec))
+  | None => True
+  end.
+Definition C10_op_refines_full : Prop := forall u ls nx ops o, u <> None -> op_refines u ls nx ops o.
+Definition x_lower := Dir 493 [] [("f", File 1 420 [104] [("user.k", [118])])].
+Lemma op_refines_refuted : ~ C10_op_refines_full.
+Proof.
+  intros H. specialize (H (Some (Dir 493 [] [])) [x_lower] 1000 [] (OChmod ["f"] 384)).
+  assert (E : String.eqb
+    (ser_opt (view (load_all (run_op (OChmod ["f"] 384) (load_all (run_dumps [] (load_all (fresh (Some (Dir 493 [] [])) [x_lower] 1000))))))))
+    (ser SER (f_tree (snd (fs_apply (OChmod ["f"] 384) (mkFs (Dir 493 [] [("f", File 1 420 [104] [("user.k", [118])])]) 1000))))) = false)
+    by (vm_compute; reflexivity).
+  apply String.eqb_neq in E. apply E. clear E.
+  assert (Hu : Some (Dir 493 [] []) <> None) by discriminate. specialize (H Hu).
+  unfold op_refines in H. cbv zeta in H.
+  assert (Ev : view (load_all (run_dumps [] (load_all (fresh (Some (Dir 493 [] [])) [x_lower] 1000)))) =
+               Some (Dir 493 [] [("f", File 1 420 [104] [("user.k", [118])])])) by (vm_compute; reflexivity).
+  rewrite Ev in H. destruct H as [_ H].
+  assert (En : next_ino (run_dumps [] (load_all (fresh (Some (Dir 493 [] [])) [x_lower] 1000))) = 1000) by (vm_compute; reflexivity).
+  rewrite En in H. exact H.
+Qed.
